@@ -191,6 +191,7 @@ func (ft *FT) returnStmt(s *ast.ReturnStmt) {
 			}
 		}
 	}
+	ft.runDefers()
 	direct := out.list()
 	out = ft.closure(out)
 	if ft.retSet.addAll(out) {
